@@ -259,6 +259,7 @@ def run(ctx):
         oracle_views(ctx, g, ref, {"init": init_kind, "nums": nums, "ops": []}, Fraction(0))
         ops_lit, ops_desc = [], []
         nops = rng.randrange(0, 5)
+        aliased = init_kind == "symmetric"   # both players are Player(data) over ONE ndarray: g[a]=v would also write the mirrored profile
         cur_nums = list(g.nums_actions)
         for oi in range(nops):
             choices = ["set", "set", "del", "gam", "players", "profile"]
@@ -267,6 +268,10 @@ def run(ctx):
             if rng.random() < 0.06:
                 choices = ["baddel"]
             o = rng.choice(choices)
+            if aliased and o in ("set", "players"):
+                o = "profile"
+            if o in ("profile", "gam", "del", "poly"):
+                aliased = False
             g2 = None
             if o == "set":
                 a = tuple(rng.randrange(n) for n in cur_nums)
